@@ -768,9 +768,8 @@ impl ProtoTKVisitor for UnpackMessageVisitor {
                     let num: u32 = tag.field_number.into();
                     match (num, tag.wire_type) {
                         #(#field_blocks)*
-                        (_, _) => {
-                            return Err(::prototk::unknown_discriminant(num).into());
-                        },
+                        // Fields this reader does not know are skipped, as in a struct.
+                        (_, _) => {},
                     }
                 }
                 if let Some(error) = error {
